@@ -76,6 +76,13 @@ Theorem C19_restore_builtins_partial : forall (w : world) (body : list op) (c : 
   s_builtins (w_st (run (with_block body w) w)) = s_builtins (w_st w).
 Proof. exact with_block_restores_builtins. Qed.
 
+(* both together: the whole state record except the list of user expressions (those created inside remain) *)
+Theorem C19_restore_whole_state_partial : forall (w : world) (body : list op) (c : ctx),
+  gen_save (w_st w) = COk c -> builtins_synced (w_st w) ->
+  last_exn (with_block body w) w = None /\
+  set_s_users [] (w_st (run (with_block body w) w)) = set_s_users [] (w_st w).
+Proof. exact restore_whole_state. Qed.
+
 Example C19_restore_builtins_instance :
   builtins_synced (initial_state [mkExpr [32; 10; 9; 13]%N true; mkExpr [32; 9; 13]%N false]).
 Proof. reflexivity. Qed.
